@@ -1,5 +1,7 @@
 import Driver.GraphDrv
 import Driver.BuildDrv
+import Driver.LibDrv
+import Driver.FileDrv
 
 open Driver
 
@@ -23,6 +25,11 @@ partial def processCases (lines : List String) (out : IO.FS.Stream) : IO Unit :=
       let res := match kind with
         | "graph" => runGraphCase body
         | "build" => runBuildCase body
+        | "lib12" => runLines lib12Line body
+        | "lib14" => runLib14 body
+        | "lib15" => runLib15 body
+        | "lib17" => runLib17 body
+        | "lib13" => runLib13 body
         | _ => ["bad-kind"]
       for r in res do out.putStrLn r
       out.putStrLn "end"
